@@ -56,9 +56,10 @@ class EnsembleSampler(MarkovChain):
 
         if starting_positions is not None:
             # store core data
+            # take a copy so that advancing the sampler never modifies the caller's array
             self.walker_positions = self.__validate_starting_positions(
                 starting_positions
-            )
+            ).copy()
             self.n_walkers, self.n_parameters = starting_positions.shape
             self.walker_probs = array(
                 [self.posterior(t) for t in self.walker_positions]
